@@ -1,6 +1,6 @@
 """Registration of the claimed properties (see DESIGN.md section 4)."""
 
-from .registry import register, SeqPart, ConcPart, ConcPairsPart, SingleSweepPart, SingleRandomPart
+from .registry import register, SeqPart, ConcPart, ConcPairsPart, ConcCrashPart, SingleSweepPart, SingleRandomPart
 
 COMMON_ASSUME = [
     "the kernel file system (tmpfs sandbox) and CPython's os/io/shutil/tempfile/pathlib are correct",
@@ -122,7 +122,8 @@ register("C10", "fault_enumeration",
          "seam event (create, open for writing, mkdir, rename, remove, chmod, flock, file write / truncate / close); "
          "seeded random (state history, call, configuration, st_blksize, write-through, crash index, optional second "
          "crash inside the recovery); and a fork cross-check of the crash stub (real fork + os._exit at the same "
-         "event, directories compared byte for byte). distinct+non-trivial = distinct (start state, call, event "
+         "event, directories compared byte for byte -- selftest.py forkcheck); plus an extension beyond the quantifier "
+         "(crash-conc): whole-process death in the middle of a multi-task run. distinct+non-trivial = distinct (start state, call, event "
          "index/kind) at which the process died",
          COMMON_ASSUME + ["process death, not power loss: every completed system call is durable, bytes still in a "
                           "Python buffer are lost (HashStore never calls fsync; no property claims power-loss safety)",
@@ -132,7 +133,8 @@ register("C10", "fault_enumeration",
          45, 600,
          [SingleSweepPart("C10", "CRASH", "crash-sweep", weight=3.0,
                           knob_sets=[dict(write_through=True, blksize=4)]),
-          SingleRandomPart("C10", "CRASH", "crash-random", weight=1.5, second=True)])
+          SingleRandomPart("C10", "CRASH", "crash-random", weight=1.5, second=True),
+          ConcCrashPart("C10", "crash-conc", weight=1.0)])
 
 register("C09", "fault_enumeration",
          "three parts: (atom-sweep) every (start state, call, knob set) of the menu executed once with the "
